@@ -50,7 +50,7 @@ Proof.
   all: try match goal with Hs : In _ (tl _) |- _ => apply in_tl in Hs end.
   all: try match goal with Hs : Some _ = Some _ |- _ => inversion Hs; subst; clear Hs end.
   all: auto 7.
-  apply Nat.eqb_eq in Hs. subst. auto 7.
+  apply Nat.eqb_eq in Hs. subst. right. right. right. split; auto using Nat.eqb_refl.
 Qed.
 
 (** A step never resurrects a collector: whoever is live afterwards was live before, or was just created. *)
@@ -75,10 +75,11 @@ Qed.
 (** a thread enters [pc_new c] only by starting [ONew c] on a not-yet-created c, keeps it through the writer
     section and leaves it at the unlock *)
 Lemma step_pc_new : forall W s t s' c, step W s t = Some s' -> pc_new (pcof s' t) c = true ->
-  pc_new (pcof s t) c = true \/ (st_created s c = false /\ pcof s t = PIdle /\ pcof s' t = PWrLock (KNew c)).
+  pc_new (pcof s t) c = true \/
+  (st_created s c = false /\ st_created s' c = true /\ pcof s t = PIdle /\ pcof s' t = PWrLock (KNew c)).
 Proof.
   intros W s t s' c H. unfold pcof. step_inv H; self; rewrite ?Hpc; cbn [pc_new pc_kind kind_new]; auto; try discriminate.
-  intros E. apply Nat.eqb_eq in E. subst. auto.
+  intros E. apply Nat.eqb_eq in E. subst. rewrite upd_same. auto.
 Qed.
 Lemma step_created : forall W s t s' c, step W s t = Some s' -> st_created s c = true -> st_created s' c = true.
 Proof.
@@ -107,11 +108,8 @@ Proof.
   assert (Hpo : forall t', t' <> t -> pcof s' t' = pcof s t') by (intros; unfold pcof; rewrite Hoth; auto).
   constructor; rewrite Hn.
   - intros c u Hu Hp. destruct (Nat.eq_dec u t) as [->|Hne].
-    + destruct (step_pc_new _ _ _ _ _ H Hp) as [Hp'|[Hc [_ Hp']]].
-      * eapply step_created; eauto.
-      * destruct (st_created s' c) eqn:E; auto. exfalso.
-        revert Hp' E. clear - H Hc. unfold pcof. step_inv H; self; try discriminate.
-        intros E. inversion E; subst. rewrite upd_same. discriminate.
+    + destruct (step_pc_new _ _ _ _ _ H Hp) as [Hp'|[Hc [Hc' _]]]; auto.
+      eapply step_created; eauto.
     + rewrite Hpo in Hp by auto. eapply step_created; eauto.
   - intros c t1 t2 H1 H2 P1 P2.
     destruct (Nat.eq_dec t1 t) as [->|Hne1]; destruct (Nat.eq_dec t2 t) as [->|Hne2]; auto.
